@@ -4,7 +4,7 @@ CONSTANTS
   PInfo <- PI_mixed
   Prefixes = {"x1"}
   LocalAS = 65000
-  ApPeers = {"A"}
+  ApPeers = {"A", "B"}
   ApIds = {1, 2}
   Codes = {0, 2, 4, 5}
   LocalCodes = {0}
